@@ -1,8 +1,10 @@
 //! vh — harness that runs /repo's implementation for the checks in /verif.
 //! Every call into /repo code is wrapped in catch_unwind: a panic is an observation.
+mod dep_run;
 mod front;
 mod heap_run;
 mod rng;
+mod server_run;
 mod srcsem;
 mod std_dump;
 
@@ -15,8 +17,10 @@ fn main() {
   }
   let rest = &args[2..];
   match args[1].as_str() {
+    "dep-run" => dep_run::main(rest),
     "front" => front::main(rest),
     "heap-run" => heap_run::main(rest),
+    "server-run" => server_run::main(rest),
     "src-run" => srcsem::main(rest),
     "std-dump" => std_dump::main(rest),
     other => {
